@@ -111,7 +111,7 @@ func exportedCell(way string, i int) (name string, wrote bool, class string) {
 }
 
 func exportedMethodsFacts(sb *strings.Builder) {
-	ways := []string{"Close", "Serve+peerClose", "Serve+handlerErr"}
+	ways := []string{"Close", "Serve+peerClose", "Serve+handlerErr", "Abandon+Close"}
 	n := reflect.TypeOf(&xmpp.Session{}).NumMethod()
 	type res struct {
 		name  string
@@ -217,4 +217,79 @@ func setterFacts(sb *strings.Builder) {
 		return p.s.SetCloseDeadline(time.Now().Add(time.Hour))
 	}}, false)
 	fmt.Fprintf(sb, "/-- PROBE: the deadline setters SetCloseDeadline uses -/\ndef closeDeadlineSetterProbe : Option (List String) := some %s\n", q(closeSet))
+}
+
+// queuedCell: Close is blocked inside the connection write of the closing tag (the peer does not
+// read), holding the output lock; a transmit call whose context is already over is issued and has
+// to wait for the lock.  While it waits it must not touch the connection's deadlines: a watcher
+// started before the lock is taken would put the write deadline into the past under Close's feet.
+// Reported: the deadline setters called while Close held the lock, the closing tags written once
+// the peer reads again, what Close returned.
+func queuedCell(e probeEntry) (setters []string, tags int, closeRes string) {
+	c1, c2 := net.Pipe()
+	defer c2.Close()
+	out := &common.SafeBuffer{}
+	cst := &connState{failAt: -1, honourWd: true}
+	go c2.Write([]byte(header))
+	s, err := xmpp.NewSession(context.Background(), remoteJID, localJID, conn{Conn: c1, out: out, st: cst}, 0, negotiator)
+	if err != nil {
+		return []string{"nosession"}, 99, "nosession"
+	}
+	gate := make(chan struct{})
+	cst.setGate(gate)
+	closed := make(chan error, 1)
+	go func() { closed <- s.Close() }()
+	select {
+	case <-cst.entered:
+	case <-time.After(3 * time.Second):
+		close(gate)
+		return []string{"close-did-not-write"}, 99, "STALL"
+	}
+	base := len(cst.deadlineCalls())
+	ctx, cancel := context.WithCancel(context.Background())
+	cancel()
+	p := &psess{s: s, pc: &pconn{Conn: c1}, peer: c2}
+	txDone := make(chan struct{})
+	go func() { common.Recover(func() { e.call(ctx, p) }); close(txDone) }()
+	// long enough for a watcher that was started before the lock to act
+	time.Sleep(60 * time.Millisecond)
+	set := map[string]bool{}
+	for _, d := range cst.deadlineCalls()[base:] {
+		set[map[string]string{"W": "SetWriteDeadline", "R": "SetReadDeadline", "D": "SetDeadline"}[d.kind]] = true
+	}
+	for k := range set {
+		setters = append(setters, k)
+	}
+	sort.Strings(setters)
+	close(gate) // the peer reads again
+	select {
+	case err := <-closed:
+		closeRes = "ok"
+		if err != nil {
+			closeRes = "failed"
+		}
+	case <-time.After(3 * time.Second):
+		closeRes = "STALL"
+	}
+	select {
+	case <-txDone:
+	case <-time.After(3 * time.Second):
+	}
+	return setters, strings.Count(string(out.Bytes()), closeTag), closeRes
+}
+
+func queuedFacts(sb *strings.Builder) {
+	var rows []string
+	for _, e := range probeEntries() {
+		switch e.name {
+		case "Send", "SendElement", "Encode", "EncodeElement", "SendIQ(result)", "SendMessage(error)", "SendPresence(error)":
+			set, tags, res := queuedCell(e)
+			for i := range set {
+				set[i] = fmt.Sprintf("%q", set[i])
+			}
+			rows = append(rows, fmt.Sprintf("(%q, [%s], %d, %q)", e.name, strings.Join(set, ", "), tags, res))
+		}
+	}
+	sb.WriteString("/-- PROBE: Close blocked in the connection write of the closing tag (output lock held), then a transmit call with a context\nthat is already over, queued behind it: deadline setters called while Close held the lock, closing tags once the peer reads, Close's result -/\n")
+	fmt.Fprintf(sb, "def queuedTransmitProbe : Option (List (String × List String × Nat × String)) := some [\n  %s]\n", strings.Join(rows, ",\n  "))
 }
